@@ -5,8 +5,10 @@ CONSTANTS
   TemplateHasQ = TRUE
   H = 2
   LensKind = "mixed"
+  WithReload = TRUE
+  ReloadBumpsVersion = TRUE
   WithScroll = TRUE
   DelayedSetsVersion = FALSE
 SPECIFICATION Spec
-INVARIANTS TypeOK OneAlive ShownIsStarted Convergence ShowFixed DelayedFixed RowsOfOneRequest ExitClean ConvergenceStaleRows
+INVARIANTS TypeOK OneAlive ShownIsStarted Convergence ShowFixed ReloadFixed DelayedFixed RowsOfOneRequest ExitClean ConvergenceStaleRows
 CHECK_DEADLOCK FALSE
